@@ -5,6 +5,7 @@ import (
 	"go/token"
 	"go/types"
 	"log"
+	"strconv"
 
 	"github.com/goghcrow/go-loader"
 	"github.com/goghcrow/go-matcher"
@@ -655,6 +656,26 @@ func (r *yieldRewriter) rewriteReturnAndForSwitchInitStmtInYieldFun(body *ast.Bl
 					c.InsertBefore(X.IgnoreExpr(n.Results[0]))
 				}
 				c.Replace(X.Return(r.CallReturn()))
+			}
+
+		case *ast.AssignStmt:
+			// `x, y := e1, e2` where x is already declared in this scope assigns to x.
+			// After a yield the statement lands in a nested func literal, where it would
+			// declare a new x instead: assign through temporaries.
+			//	x, y := e1, e2  =>  ʌ0, y := e1, e2; x = ʌ0
+			if inYieldFunc() && n.Tok == token.DEFINE && len(n.Lhs) > 1 && c.Index() >= 0 {
+				var olds, tmps []ast.Expr
+				for i, lhs := range n.Lhs {
+					id, ok := lhs.(*ast.Ident)
+					if ok && id.Name != "_" && r.pkg.TypesInfo.Defs[id] == nil {
+						tmp := X.Ident(r.gensym(cstYieldFromRangeVar) + strconv.Itoa(i))
+						olds, tmps = append(olds, id), append(tmps, tmp)
+						n.Lhs[i] = tmp
+					}
+				}
+				if len(olds) > 0 {
+					c.InsertAfter(&ast.AssignStmt{Lhs: olds, Tok: token.ASSIGN, Rhs: tmps})
+				}
 			}
 
 		case *ast.ForStmt:
